@@ -132,7 +132,7 @@ def conditions(tier):
                 conds.append(Cond('tol_%s_eq%d_%s%s' % (ctx, n, tag, tag2), 's: str',
                                   ['len(s) == %d' % n, pre] + ([pre2] if pre2 else []),
                                   'body_tol(s, %r)' % ctx, timeout=T * (1 if n < 4 else 4), cost=5,
-                                  twin=(tag not in ('p_eq37',))))
+                                  twin=(tag not in ('p_eq37',) and (tag, tag2) != ('p_eq92', '_lo'))))
     for ctx, n in ([('S', 2), ('D', 2)] if quick else [('S', 3), ('SU', 3), ('D', 3)]):
         conds.append(Cond('entry_%s_le%d' % (ctx, n), 's: str', ['len(s) <= %d' % n], 'body_tol_entry(s, %r)' % ctx,
                           timeout=T, smoke=[dict(s=x) for x in ('', '}', 'a}', BS + ')', '{', 'ab' + BS, '$')]))
